@@ -854,7 +854,22 @@ class SurrogatesS(Subject):
         return [("normalize_original_data", norm), ("embedding=", emb)]
 
     def extra_queries(self, obj, m):
+        def tw(d, tau):
+            # a scan over embedding parameters at a fixed threshold; the
+            # method embeds the data itself, the caller then puts the
+            # embedding back that it had set (public setter)
+            def q(o):
+                import random
+                e = o.embedding
+                random.seed(7)
+                try:
+                    return o.twin_surrogates(d, tau, 0.3, 2)
+                finally:
+                    o.embedding = e
+            return q
         return [("twins(0.3,2)", lambda o: o.twins(0.3, 2)),
+                ("twin_surrogates(1,1,0.3,2)", tw(1, 1)),
+                ("twin_surrogates(3,2,0.3,2)", tw(3, 2)),
                 ("original_data_fft", lambda o: o.original_data_fft())]
 
 
